@@ -242,6 +242,19 @@ func (m *Manager) RouteAllTrafficToNewVersion(c *TrafficRoutingContext) (bool, e
 	// build up the network provider
 	stableService := c.ObjectRef[0].Service
 	cServiceName := getCanaryServiceName(stableService, c.OnlyTrafficRouting, c.DisableGenerateCanaryService)
+	if cServiceName != stableService {
+		// the canary Service only exists while a step routes traffic; a last step without traffic
+		// has removed it (and un-pinned the stable Service, which then selects the pods of both
+		// versions). Routing everything to it would send every request to a Service that does
+		// not exist, so there is nothing to do here.
+		cService := &corev1.Service{}
+		if err := m.Get(context.TODO(), client.ObjectKey{Namespace: c.Namespace, Name: cServiceName}, cService); errors.IsNotFound(err) {
+			klog.Infof("%s canary service(%s) does not exist, skip routing all traffic to it", c.Key, cServiceName)
+			return false, nil
+		} else if err != nil {
+			return false, err
+		}
+	}
 	trController, err := newNetworkProvider(m.Client, c, stableService, cServiceName)
 	if err != nil {
 		klog.Errorf("%s newTrafficRoutingController failed: %s", c.Key, err.Error())
